@@ -170,7 +170,7 @@ Definition sizes_ok_case (i : sinput) (bs : list oblock) (rsize : N) : bool :=
   end.
 
 (* flags: Go-side checks that failed (34: the number of UnixFS blocksizes differs from the number of links; 35: the add failed
-   or the root is not in the stream) *)
+   or the root is not in the stream; 36: the add did not return, watchdog) *)
 Definition check_case (c : case) : list (N * N * N) :=
   let '(id, (i, (bs, root, rsize))) := c in
   let f (code : N) (b : bool) := if b then [] else [(id, code, 0)] in
@@ -183,6 +183,7 @@ Definition check_case (c : case) : list (N * N * N) :=
 Definition scase := (N * (sinput * (list oblock * N * N) * list N))%type.
 Definition check_scase (c : scase) : list (N * N * N) :=
   let '(id, (i, o, flags)) := c in
-  check_case (id, (i, o)) ++ map (fun k => (id, k, 0)) flags.
+  (if memN 35 flags || memN 36 flags then [] else check_case (id, (i, o)))      (* nothing was observed *)
+  ++ map (fun k => (id, k, 0)) flags.
 
 Definition failing (cs : list scase) : list (N * N * N) := flat_map check_scase cs.
